@@ -1,6 +1,7 @@
 import Pose.Wire
 import Pose.Model.Batch
 import Pose.Gen.Handled
+import Pose.Gen.LTypes
 /-! Driver ops for C06: they *run the model's own definitions* (`binop`, `addOp`, `unopFlat`, `IMap.steps`,
 `catFlat`, `overwriteFlat`, `gatherFlat`, `scatterFlat`, `torchFunction`, `Retain.retain`) on tagged items
 (an item is tagged with its flat index) and print shapes / tags.  All tokens are naturals or short words.
@@ -91,7 +92,47 @@ def fmtFn : Retain.Fn → String
 def sepBar (ts : List String) : List String × List String :=
   (ts.takeWhile (· ≠ "|"), (ts.dropWhile (· ≠ "|")).drop 1)
 
+def parseLT (s : String) : Except String LT :=
+  match LT.all.find? (fun t => (reprStr t).endsWith ("." ++ s)) with
+  | some t => .ok t
+  | none => .error s!"bad-ltype:{s}"
+
+def parseOp (s : String) : Except String Op :=
+  match Op.all.find? (fun t => (reprStr t).endsWith ("." ++ s)) with
+  | some t => .ok t
+  | none => .error s!"bad-op:{s}"
+
+def ltName (t : LT) : String := ((reprStr t).splitOn ".").getLast!
+
 def opsC06 : List (String × Handler) := [
+  -- c06.torchbshape n a… n b…   → torch's own loop (`torchBroadcast`)
+  ("c06.torchbshape", fun ts => do
+      let (a, r1) ← takeList ts
+      let (b, _) ← takeList r1
+      match torchBroadcast a b with
+      | none => throw "raise"
+      | some o => return fmtShape o),
+  -- c06.sig <op> <ltype> n ls…   → `lie <ltype> S …full shape` | `tensor S …full shape` | err raise
+  ("c06.sig", fun ts => do
+      match ts with
+      | op :: lt :: rest =>
+        let op ← parseOp op; let lt ← parseLT lt
+        let (ls, _) ← takeList rest
+        match sig op lt with
+        | none => throw "raise"
+        | some r => match r with
+          | .lie t => return s!"lie {ltName t} " ++ fmtShape (r.shape ls) ++ (if initOk t (r.shape ls) then " init-ok" else " init-FAILS")
+          | .tensor _ => return "tensor - " ++ fmtShape (r.shape ls)
+      | _ => throw "arity"),
+  -- c06.effect <name>   → fresh | view | inplace, and whether the name follows the in-place convention
+  ("c06.effect", fun ts => do
+      match ts with
+      | [name] => match (semOf name).map effectOf with
+        | some e => return ((reprStr e).splitOn ".").getLast! ++ (if inplaceName name then " underscore" else " plain")
+        | none => throw "no-semantics"
+      | _ => throw "arity"),
+  -- c06.ltypes   → the generated LieType table compiled into this binary
+  ("c06.ltypes", fun _ => return " ".intercalate (PP.Gen.ltypes.map fun r => s!"{r.1}:{r.2.1}:{r.2.2.1}:{r.2.2.2}")),
   -- c06.bcast dOut dDecl  n sx…  n sy…     → binop on tagged items
   ("c06.bcast", fun ts => do
       match ts with
